@@ -285,6 +285,7 @@ class LookupInterp:
     def __init__(self, prog, cmps, case):
         self.prog, self.cmps, self.case = prog, cmps, case
         self.depth = 0
+        self.actions = []
 
     def canon(self, v):
         if v[0] != 'it':
@@ -355,6 +356,11 @@ class LookupInterp:
             return ('pair', vals[0], vals[1])
         if k == 'call':
             return self.call(n, fr)
+        if k == 'mem' and n.get('name') in ('first', 'second'):
+            b = self.ev(n.get('base'), fr)
+            if b[0] == 'pair':
+                return b[1] if n['name'] == 'first' else b[2]
+            return LTOP
         return LTOP
 
     def deref(self, v, node):
@@ -428,6 +434,12 @@ class LookupInterp:
                 return ('bool', self.cmp(vals[0], vals[1], n))
         if n.get('op') in ('==', '!='):
             return ('bool', self.truth(n, fr))
+        if n.get('op') == '=' and n.get('obj') is not None and len(args) == 1:
+            l = A.strip(n['obj'])
+            v = self.ev(args[0], fr)
+            if isinstance(l, dict) and l.get('k') == 'ref' and l.get('dk') == 'local':
+                fr[('l', l.get('did'))] = v
+            return v
         if n.get('op') == '*' and n.get('obj') is not None and not args:
             v = self.ev(n['obj'], fr)
             if v[0] == 'it':
@@ -453,6 +465,20 @@ class LookupInterp:
                 return ('it', 'END', 0)
             if sn in ('begin', 'cbegin', 'mbegin') and not args:
                 return ('it', 'BEG', 0)
+        if n.get('method') and self.is_sorted_vec(n.get('obj')) and sn in ('insert', 'emplace') and len(args) == 2:
+            pos, v = self.ev(args[0], fr), self.ev(args[1], fr)
+            if pos[0] != 'it' or v != ('key',):
+                raise _LUnknown('insertion into the sorted vector the interpreter does not follow')
+            self.actions.append(('ins', self.canon(pos)))
+            return ('it', 'NEW', 0)
+        if n.get('method') and self.is_sorted_vec(n.get('obj')) and sn == 'erase' and len(args) == 1:
+            pos = self.ev(args[0], fr)
+            if pos[0] != 'it':
+                raise _LUnknown('erase from the sorted vector the interpreter does not follow')
+            self.actions.append(('erase', self.canon(pos)))
+            return self.canon(pos)
+        if n.get('method') and self.is_sorted_vec(n.get('obj')) and sn in ('push_back', 'emplace_back', 'clear', 'assign', 'resize', 'pop_back', 'swap'):
+            raise _LUnknown('modification of the sorted vector the interpreter does not follow (%s)' % sn)
         callee = self.prog.fns.get(n.get('fn')) if n.get('fn') else None
         if on_this and callee is not None and callee.get('body') is not None and (callee.get('clsq') or '') == FS:
             if self.depth > 6:
@@ -574,12 +600,12 @@ def canon_res(ip, v):
 
 def show(v):
     if v[0] == 'it':
-        a = {'LB': 'the lower bound', 'END': 'end()', 'BEG': 'begin()'}[v[1]]
+        a = {'LB': 'the lower bound', 'END': 'end()', 'BEG': 'begin()', 'NEW': 'the inserted element'}[v[1]]
         return a + (' %+d' % v[2] if v[2] else '')
     if v[0] == 'pair':
         return '(%s, %s)' % (show(v[1]), show(v[2]))
     if v[0] in ('bool', 'int'):
-        return str(v[1])
+        return str(v[1]).lower()
     return 'a value the interpreter does not follow'
 
 
@@ -777,4 +803,68 @@ def contig(progs):
                                    '%s copies several elements at once from / to an address obtained by dereferencing an iterator of type %s: random access '
                                    'does not make the range contiguous (reverse_iterator, deque::iterator), the standard algorithm copies element by element'
                                    % (A.cshort(c), next(t for t in its if t)), where=f['pname'], unit=prog.uname))
+    return rr
+
+
+
+# ------------------------------------------------------------------------------------------------ MUTATE-CASE
+
+def mutate_case(progs):
+    rr = RuleResult('MUTATE-CASE', 'insert(value) / emplace(arg) / erase(key) of FlatSet do, in each of the three cases of the key, what std::set does: a present key '
+                                   'is not inserted again and insert returns (its position, false); an absent key is inserted at its lower bound and insert returns '
+                                   '(the new element, true); erase(key) removes exactly the equivalent element and returns 1, or nothing and 0')
+    from .sets import compare_types
+    seen = set()
+    for prog in progs:
+        cmps = compare_types(prog)
+        if not cmps:
+            continue
+        for f in prog.amc_functions():
+            nm = short(f['name'])
+            ps = f.get('params', [])
+            if f.get('body') is None or f.get('clsq') != FS or nm not in ('insert', 'emplace', 'insert_val', 'erase') or len(ps) != 1:
+                continue
+            t = ps[0]['t']
+            if 'initializer_list' in t or 'node' in t.lower() or (nm == 'erase' and not t.rstrip().endswith('&')):
+                continue                                   # erase(position) is the vector's erase
+            bad, verdicts = None, {}
+            for case in ('ABSENT-END', 'ABSENT', 'PRESENT'):
+                ip = LookupInterp(prog, cmps, case)
+                try:
+                    try:
+                        ip.run(f['body'], {('p', 0): ('key',)})
+                        res = LTOP
+                    except _LRet as r:
+                        res = r.v
+                except _LUnknown as e:
+                    rr.broken = rr.broken or 'MUTATE-CASE: cannot interpret %s: %s' % (f['pname'][:100], e)
+                    verdicts = None
+                    break
+                except _LViolation as v:
+                    bad = (case, str(v), v.node)
+                    break
+                res = canon_res(ip, res)
+                lb = ('it', 'END', 0) if case == 'ABSENT-END' else ('it', 'LB', 0)
+                present = case == 'PRESENT'
+                if nm == 'erase':
+                    want_act = [('erase', lb)] if present else []
+                    ok_res = res[0] in ('int', 'bool') and int(res[1]) == (1 if present else 0)
+                    want_txt = 'erases the equivalent element and returns 1' if present else 'erases nothing and returns 0'
+                else:
+                    want_act = [] if present else [('ins', lb)]
+                    ok_res = res == ('pair', lb if present else ('it', 'NEW', 0), ('bool', not present))
+                    want_txt = 'inserts nothing and returns (the equivalent element, false)' if present else 'inserts at the lower bound and returns (the new element, true)'
+                verdicts[case] = '%s -> %s' % (ip.actions, show(res) if res[0] != 'top' else '?')
+                if ip.actions != want_act or not ok_res:
+                    acts = ', '.join('%s at %s' % (a, show(p_)) for a, p_ in ip.actions) or 'no modification'
+                    bad = (case, 'does: %s; returns %s - std::set %s' % (acts, show(res), want_txt), None)
+                    break
+            if verdicts is None:
+                continue
+            rr.instance('%s|%s' % (f['key'], prog.uname), {'function': f['pname'][:130], 'per case': verdicts})
+            if bad and f['key'] not in seen:
+                seen.add(f['key'])
+                case, msg, node = bad
+                rr.add(Finding('MUTATE-CASE', f['key'], prog.site(f, node) if node is not None else f['loc'],
+                               '%s: when %s it %s' % (nm, CASE_TEXT[case], msg), where=f['pname'], unit=prog.uname))
     return rr
